@@ -1,6 +1,10 @@
 package main
 
-import "time"
+import (
+	"os"
+	"strings"
+	"time"
+)
 
 // C01 — versioned key-value semantics. Engine E1, full alphabet, reads oracle in every new state.
 
@@ -38,12 +42,16 @@ func c01Specs(tier string) []*Spec {
 	add := func(name string, cfg Cfg, keys [][]byte, vals [][]byte, depth, maint int) {
 		pr := probesFor(keys)
 		a := c01Alpha()
-		specs = append(specs, &Spec{ID: "C01", Name: name, Cfg: cfg, Keys: keys, Vals: vals, MaxDepth: depth, MaxMaint: maint,
+		wt := 1
+		if depth >= 6 {
+			wt = 12
+		}
+		specs = append(specs, &Spec{Weight: wt, ID: "C01", Name: name, Cfg: cfg, Keys: keys, Vals: vals, MaxDepth: depth, MaxMaint: maint,
 			Alphabet: a.Ops, Oracles: []Oracle{oracleReads(pr), {Name: "reads-again", Fn: oracleReads(pr).Fn}}})
 	}
 	vals := bs("x", "")
 	if tier == "quick" {
-		add("default/a-ab-b/d5", defaultCfg, keysA, vals, 5, 2)
+		add("default/a-ab-b/d6", defaultCfg, keysA, vals, 6, 2)
 		for i, c := range singleDeviationCfgs()[1:] {
 			d := 4
 			if c.Backend == "leveldb" {
@@ -110,10 +118,27 @@ func itoa(i int) string {
 // runSpecs explores the specifications in order, sharing the time budget.
 func runSpecs(c *Ctx, specs []*Spec) *Result {
 	res := &Result{}
-	for i, s := range specs {
-		// each spec gets an equal share of what is left
+	if only := os.Getenv("VERIF_ONLY"); only != "" {
+		var f []*Spec
+		for _, s := range specs {
+			if strings.Contains(s.Name, only) {
+				f = append(f, s)
+			}
+		}
+		specs = f
+	}
+	wsum := 0
+	for _, s := range specs {
+		if s.Weight <= 0 {
+			s.Weight = 1
+		}
+		wsum += s.Weight
+	}
+	for _, s := range specs {
+		// each spec gets its weighted share of what is left; unused time flows to the later ones
 		left := time.Until(c.Deadline)
-		share := left / time.Duration(len(specs)-i)
+		share := left * time.Duration(s.Weight) / time.Duration(wsum)
+		wsum -= s.Weight
 		if share < 2*time.Second {
 			share = 2 * time.Second
 		}
